@@ -25,7 +25,7 @@ PROPS["C03"] = dict(expect_probes=["cross_retry_success", "blackhole_rejected", 
     level_text="Seeded exploration of sequential histories (selections with retries, availability flips, reloads, basic-conf reloads, clock advances through slow-start ramps) on the real BalTable/BalanceGslb/BalanceRR built through the real file loaders; every returned target is checked against the harness's own ground truth (what it configured and marked down) and errors are demanded exactly when that ground truth has no eligible target.",
     level_note="Trusted: simrt, harness ground-truth model; designated sub-cluster of a key is learnt from a fresh all-up instance of the same real code (uses the determinism that C02 checks).",
     technique="deterministic simulation: seeded fault/reload histories on the real balancer with a ground-truth eligibility oracle; tape-shrunk replay")
-PROPS["C04"] = dict(expect_probes=["wlc_checked"], engine="A", runs=(8000, 300000), modes=[("nofault", 0.25), ("swarm", 0.75)], race=False,
+PROPS["C04"] = dict(expect_probes=["wlc_checked", "wlc_direct_checked"], engine="A", runs=(8000, 300000), modes=[("nofault", 0.25), ("swarm", 0.75)], race=False,
     level="exploration", design="§6 Engine A / C04",
     level_text="Seeded histories of connection open/close, availability flips and reloads on the real balancer in WLC mode; each pick is compared by exact cross-multiplication with every eligible backend using connection counts the harness itself drove.",
     level_note="Trusted: simrt, harness's own connection counters (ground truth), integer cross-multiplication.",
